@@ -297,7 +297,10 @@ def t4_literals(ctx):
         elif m2 and BR in z:
             r.undecided("PushIC/encode", "PushIC is written as opcode, 32 − Z, bytes[Z..] with Z = %s: that Z counts the leading zero bytes is not decided for this spelling" % z[:120])
             exact = None
-    if exact is not None:
+    if exact is not None and not exact and len(ws) < 3:
+        # fewer writes were read than the arm makes (an assertion or a log branch between them splits the arm): nothing is decided about the ones not read
+        r.undecided("PushIC/encode", "only %d of the PushIC arm's writes were read (%s)" % (len(ws), ws))
+    elif exact is not None:
         r.check(exact, "PushIC/encode", "opcode, 32 − leading zero bytes, the remaining bytes", "PushIC encode writes %s" % ws)
     # what take_while counts: bytes equal to zero (the closure is printed as `closure[]` above, its test is read here)
     encb = ctx.prog.body("melvm::opcode::OpCode::encode")
